@@ -99,7 +99,8 @@ def _ccs_sign(case, res):
     msg = (res.oracle_fail or '')
     return (case.get('cls') == 'PID_CCS' and msg.startswith('permuting the sources')
             and str(res.site).endswith('near-sign-change')
-            and (res.detail or {}).get('ccs_min_pointwise_term', 1.0) < 5e-3)
+            and ((res.detail or {}).get('ccs_min_pointwise_term', 1.0) < 5e-3
+                 or bool((res.detail or {}).get('ccs_sign_patterns_differ'))))
 
 
 @predicate('gh-optimiser-random')
